@@ -132,6 +132,7 @@ class Flat:
     self.ncaps = 0
     self.max_rows = 0
     self.attr_changes = 0
+    self.unassert_from = None   # index of the first word from which the displayed text is not asserted (leftover class)
 
 
 class _Emitter:
@@ -218,8 +219,8 @@ class _Emitter:
     self.flat.labels.add("channel-2-burst" if chan == 2 else "field-2-code")
 
 
-def _items(em, items, width, mode, flat):
-  """emits the items of one row; returns the number of cells used. width = cells available from the cursor"""
+def _items(em, items, width, mode, flat, pen="white"):
+  """emits the items of one row; returns the pen colour at the end of the row. width = cells available from the cursor"""
   used = 0
   peak = 0
   for idx, it in enumerate(items):
@@ -232,6 +233,9 @@ def _items(em, items, width, mode, flat):
         flat.labels.add("double-space")
     elif t == "mid":
       em.code(enc_mid(it["color"], it["ul"]), "mid", single)
+      if it["color"] is None and pen != "white":
+        flat.labels.add("italics-mid-row-code-after-colour")
+      pen = it["color"] or pen
       prev = [x for x in items[:idx] if x["t"] not in ("pad", "ch2")]
       if prev and prev[-1]["t"] == "mid":
         if prev[-1]["color"] is not None and it["color"] is None and prev[-1]["ul"] == it["ul"] and not (len(prev) > 1 and prev[-2]["t"] == "mid"):
@@ -267,6 +271,9 @@ def _items(em, items, width, mode, flat):
     else:
       raise GrammarError("unknown item %r" % (it,))
     peak = max(peak, used)
+  real = [i for i in items if i["t"] not in ("pad", "ch2")]
+  if real and real[-1]["t"] == "mid":
+    flat.labels.add("row-ends-with-mid-row-code")
   if peak > width:
     raise GrammarError("row overflows: %d cells for %d columns" % (peak, width))
   # column 32 is sticky (the cursor does not advance past it): only plain text may end there
@@ -275,7 +282,7 @@ def _items(em, items, width, mode, flat):
     if used != width or not last or last[-1]["t"] != "txt":
       raise GrammarError("only standard characters may fill column 32")
     flat.labels.add("row-reaches-column-32")
-  return used
+  return pen
 
 
 def _pre(em, row):
@@ -320,6 +327,8 @@ def flatten(script):
   first = True
   prev_style = None
   left = leftovers(script["caps"])
+  paint_tops = []
+  still_painted = set()
   for ci, cap in enumerate(script["caps"]):
     style = cap["style"]
     single = cap.get("single") or []
@@ -328,6 +337,8 @@ def flatten(script):
     first = False
     if prev_style is not None and prev_style != style:
       flat.labels.add("mode-switch")
+      if script["caps"][ci - 1].get("edm") is None:
+        raise GrammarError("a caption of another style starts while the previous one is still displayed (outside the three grammars)")
     prev_style = style
     flat.ncaps += 1
     rows = cap["rows"]
@@ -348,12 +359,14 @@ def flatten(script):
       em.code(enc_ctl("RCL"), "RCL", "RCL" in single)
       if left[ci]:
         flat.labels.add("pop:load-over-leftover")
+        if flat.unassert_from is None:
+          flat.unassert_from = len(flat.words)
       for r in rows:
         if r.get("brk") is not None:
           em.brk(r["brk"]); flat.labels.add("caption-spans-lines")
         _pre(em, r)
         col = _pac(em, r, flat)
-        _items(em, r["items"], 32 - col, "pop", flat)
+        _items(em, r["items"], 32 - col, "pop", flat, r["color"])
       if cap.get("eoc_brk") is not None:
         em.brk(cap["eoc_brk"]); flat.labels.add("caption-spans-lines")
       _noise(em, cap, "tail")
@@ -362,6 +375,17 @@ def flatten(script):
         flat.labels.add("pop:EDM-before-EOC")
       em.code(enc_ctl("EOC"), "EOC", "EOC" in single)
     elif style == "paint":
+      top = min(r["row"] for r in rows)
+      if paint_tops and top > min(paint_tops):
+        flat.labels.add("paint:caption-below-earlier-paint-on-caption")
+      paint_tops.append(top)
+      if ci and script["caps"][ci - 1]["style"] == "paint" and script["caps"][ci - 1].get("edm") is None:
+        flat.labels.add("paint:accumulates-without-EDM")
+        if set(_rows_of(cap)) & still_painted:
+          raise GrammarError("paint-on caption overwrites rows that are still displayed")
+      still_painted = (still_painted if ci and script["caps"][ci - 1].get("edm") is None else set()) | set(_rows_of(cap))
+      if [r["row"] for r in rows] != sorted(r["row"] for r in rows):
+        flat.labels.add("paint:rows-not-top-down")
       _noise(em, cap, "head")
       em.code(enc_ctl("RDC"), "RDC", "RDC" in single)
       for r in rows:
@@ -369,7 +393,7 @@ def flatten(script):
           em.brk(r["brk"]); flat.labels.add("caption-spans-lines")
         _pre(em, r)
         col = _pac(em, r, flat)
-        _items(em, r["items"], 32 - col, "paint", flat)
+        _items(em, r["items"], 32 - col, "paint", flat, r["color"])
       em.flush()
     elif style == "roll":
       depth = cap["depth"]
@@ -378,6 +402,7 @@ def flatten(script):
       flat.labels.add("roll:RU%d" % depth)
       flat.max_rows = max(flat.max_rows, min(depth, len(rows)))
       base = cap.get("base", 15)
+      pen = "white"
       if base != 15:
         flat.labels.add("roll:base-row-not-15")
       for i, r in enumerate(rows):
@@ -393,9 +418,10 @@ def flatten(script):
           p["row"] = base
           p.setdefault("form", "indent")
           col = _pac(em, p, flat)
+          pen = p["color"]
         else:
           flat.labels.add("roll:CR-without-PAC")
-        _items(em, r["items"], 32 - col, "roll", flat)
+        pen = _items(em, r["items"], 32 - col, "roll", flat, pen)
       em.flush()
     else:
       raise GrammarError("style %r" % style)
@@ -482,7 +508,7 @@ def _row_items(draw, width, prof, mode, pen_color="white"):
         s = " " + s
       items.append({"t": "txt", "s": s}); used += len(s)
     elif kind == "mid":
-      if used + 1 > limit:
+      if used + 2 > limit:
         continue
       if items and items[-1]["t"] == "mid" and not prof["mid_runs"]:
         continue            # back-to-back mid-row codes: only the colour+italics pair is something an encoder sends
@@ -495,9 +521,13 @@ def _row_items(draw, width, prof, mode, pen_color="white"):
       items.append(it); used += 1
       if it["color"] is not None:
         pen_color = it["color"]
-      if prof["mid_pairs"] and used + 1 <= limit and draw(st.integers(0, 5)) == 0:
+      if prof["mid_pairs"] and used + 2 <= limit and draw(st.integers(0, 5)) == 0:
         # colour then italics, back to back: the only way to get coloured italics
         items.append(single({"t": "mid", "color": None, "ul": it["ul"]})); used += 1
+      # a mid-row code stands between words: text follows (a row *ending* with one is the labelled class "trailing_mid")
+      if not (prof["trailing_mid"] and draw(st.integers(0, 2)) == 0):
+        t = draw(_phrase(budget - used, prof["rich"]))
+        items.append({"t": "txt", "s": t}); used += len(t)
     elif kind == "spc":
       if used + 1 > limit:
         continue
@@ -554,12 +584,16 @@ def _pac_fields(draw, prof):
 
 
 @st.composite
-def _grid_rows(draw, prof, mode, free_rows=None):
-  """1-4 rows at distinct row numbers, in the order an encoder sends them (top to bottom, sometimes not)"""
+def _grid_rows(draw, prof, mode, free_rows=None, max_top=None):
+  """1-4 rows at distinct row numbers, in the order an encoder sends them (top to bottom, sometimes not).
+  max_top: the top row is at most this row (paint-on main class, see scripts())"""
   nrows = draw(st.integers(1, prof["max_rows"]))
   pool = list(free_rows) if free_rows is not None else list(range(1, 16))
   nrows = min(nrows, len(pool))
-  if prof["contiguous"] or draw(st.integers(0, 3)):
+  if max_top is not None:
+    top = draw(st.one_of(st.just(min(max_top, 15 - nrows + 1)), st.integers(1, min(max_top, 15 - nrows + 1))))
+    rows = list(range(top, top + nrows))
+  elif prof["contiguous"] or draw(st.integers(0, 3)):
     # contiguous block
     starts = [r for r in pool if all(r + i in pool for i in range(nrows))]
     if starts:
@@ -622,8 +656,10 @@ def pop_caption(draw, prof, last=False):
 
 
 @st.composite
-def paint_caption(draw, prof, free_rows=None):
-  cap = {"style": "paint", "rows": draw(_grid_rows(prof, "paint", free_rows)), "gap": draw(st.integers(0, 40))}
+def paint_caption(draw, prof, free_rows=None, max_top=None):
+  cap = {"style": "paint", "rows": draw(_grid_rows(prof, "paint", free_rows, max_top)), "gap": draw(st.integers(0, 40))}
+  # the caption is erased (EDM) before the next one, unless the profile lets paint-on captions accumulate on blank rows
+  cap["edm"] = None if prof["paint_accumulate"] and draw(st.integers(0, 1)) else draw(st.integers(0, 60))
   noise = {}
   for where in ("head", "edm"):
     n = draw(_noise_list(prof, 8))
@@ -638,7 +674,7 @@ def paint_caption(draw, prof, free_rows=None):
 
 
 @st.composite
-def roll_caption(draw, prof):
+def roll_caption(draw, prof, base=15):
   depth = draw(st.sampled_from([2, 3, 4]))
   n = draw(st.integers(1, 6))
   rows = []
@@ -661,8 +697,9 @@ def roll_caption(draw, prof):
       row["pre"] = pre
     rows.append(row)
   cap = {"style": "roll", "depth": depth, "rows": rows, "gap": draw(st.integers(0, 40))}
-  if prof["roll_base"] and draw(st.integers(0, 3)) == 0:
-    cap["base"] = draw(st.integers(depth, 14))
+  cap["edm"] = draw(st.integers(0, 60)) if draw(st.integers(0, 2)) == 0 else None
+  if base != 15:
+    cap["base"] = base        # one base row per file, low enough for any depth: the window never has to be re-fitted
   sg = _singles(draw, prof, ["RU", "CR", "EDM2"])
   if sg:
     cap["single"] = sg
@@ -676,7 +713,7 @@ def profile(**kw):
   p = dict(styles=("pop", "roll", "paint"), mix=False, max_caps=5, max_rows=4, indent=True, to=True, pac_attr=True, mid=True, special=True,
            extended=True, bs=True, rich=True, pad=True, pad_inside=False, ch2=True, f2=True, undoubled=False, brk_rows=True,
            row_order=False, contiguous=False, pop_leftover=False, edm_pre=True, cr_no_pac=True, roll_base=False,
-           paint_reuse_rows=False, paint_c1=False, parity=True, df=True, italics_on_colour=False, mid_pairs=True, mid_runs=False)
+           paint_accumulate=False, paint_c1=False, parity=True, df=True, italics_on_colour=False, mid_pairs=True, mid_runs=False, trailing_mid=False)
   for k in kw:
     if k not in p:
       raise KeyError(k)
@@ -694,15 +731,28 @@ def scripts(draw, prof):
   ncaps = draw(st.integers(1, prof["max_caps"]))
   style = draw(st.sampled_from(prof["styles"]))
   caps = []
+  paint_top = 15
+  painted = set()
+  roll_base = draw(st.integers(4, 14)) if prof["roll_base"] and draw(st.integers(0, 2)) == 0 else 15
   for i in range(ncaps):
     if prof["mix"] and i and draw(st.integers(0, 1)) == 0:
       style = draw(st.sampled_from(prof["styles"]))
     if style == "pop":
       cap = draw(pop_caption(prof, last=i == ncaps - 1))
     elif style == "paint":
-      cap = draw(paint_caption(prof))
+      # C08 finding C-1 (a paint-on paragraph is attached to an earlier paint-on region above it) would shadow the search: unless
+      # the profile asks for it, the top rows of the paint-on captions of a file never move down
+      free = [r for r in range(1, 16) if r not in painted]
+      if not free:
+        caps[-1]["edm"] = 3
+        free = list(range(1, 16))
+      cap = draw(paint_caption(prof, free_rows=free if len(free) < 15 else None, max_top=None if prof["paint_c1"] or len(free) < 15 else paint_top))
+      paint_top = min(paint_top, min(_rows_of(cap)))
+      painted = (painted | set(_rows_of(cap))) if cap.get("edm") is None else set()
     else:
-      cap = draw(roll_caption(prof))
+      cap = draw(roll_caption(prof, roll_base))
+    if style != "paint":
+      painted = set()
     caps.append(cap)
   normalise(caps, prof, draw)
   df = prof["df"] and draw(st.booleans())
@@ -729,8 +779,6 @@ def normalise(caps, prof, draw=None):
       continue
     if cap["style"] != nxt["style"] and cap.get("edm") is None:
       cap["edm"] = 9
-    if cap["style"] == "paint" and nxt["style"] == "paint" and cap.get("edm") is None and not prof["paint_reuse_rows"]:
-      cap["edm"] = 7
   if not prof["pop_leftover"]:
     for cap, leftover in zip(caps, leftovers(caps)):
       if leftover:
@@ -754,8 +802,8 @@ def leftovers(caps):
         disp = False
       disp, nond = nond, disp
     elif cap["style"] == "roll":
-      if mode in ("pop", "paint"):
-        nond = False
+      # (RU2-4 coming from pop-on/paint-on erases both memories, but a load without ENM after such a switch is still classified
+      # as leftover: conservative, keeps the main class to what every encoder does)
       disp = True
     else:
       disp = True
@@ -857,10 +905,26 @@ def valid(script):
     return False
 
 
+CLASS_LABELS = ("undoubled-control", "mid-row-run", "row-ends-with-mid-row-code", "italics-mid-row-code-after-colour",
+                "pop:load-over-leftover", "paint:caption-below-earlier-paint-on-caption", "paint:rows-not-top-down",
+                "paint:accumulates-without-EDM", "pad-inside-displayed-row", "roll:base-row-not-15", "roll:CR-without-PAC", "mode-switch",
+                "double-space", "row-reaches-column-32")
+
+
 def shrinker(key="script"):
+  """greedy simplifications that stay inside the grammar *and* inside the labelled classes of the original case (a shrunk case must
+  not wander into another class, e.g. acquire a row that ends with a mid-row code)"""
   def f(case):
+    try:
+      have = flatten(case[key]).labels
+    except GrammarError:
+      return
     for s in simplifications(case[key]):
-      if valid(s):
+      try:
+        labels = flatten(s).labels
+      except GrammarError:
+        continue
+      if all(l in have for l in labels if l in CLASS_LABELS):
         c = dict(case); c[key] = s
         yield c
   return f
